@@ -66,3 +66,20 @@ def aslinearoperator(m):
 def install():
     sps.coo_matrix = coo_matrix; sps.csr_matrix = csr_matrix; spl.aslinearoperator = aslinearoperator
     import scipy.sparse.linalg._interface as _i
+
+# --- real scipy sparse (concrete) x symbolic dense operand -> dense object product
+import scipy.sparse._base as _spb
+_orig_dispatch = _spb._spbase._matmul_dispatch
+def _matmul_dispatch(self, other):
+    if isinstance(other, DS): return DS(todense_obj(self) @ other.a)
+    if isinstance(other, np.ndarray) and other.dtype == object:
+        return (todense_obj(self) @ other).view(SA)
+    return _orig_dispatch(self, other)
+_spb._spbase._matmul_dispatch = _matmul_dispatch
+_orig_rdispatch = getattr(_spb._spbase, '_rmatmul_dispatch', None)
+if _orig_rdispatch is not None:
+    def _rmatmul_dispatch(self, other):
+        if isinstance(other, np.ndarray) and other.dtype == object:
+            return (other @ todense_obj(self)).view(SA)
+        return _orig_rdispatch(self, other)
+    _spb._spbase._rmatmul_dispatch = _rmatmul_dispatch
